@@ -28,6 +28,7 @@ type CrashCfg struct {
 	Depth2Every int // cut the recovery run of every n-th image again (0 = never)
 	CutStride int  // evaluate every n-th cut (1 = all)
 	Perturb   bool
+	Script    bool // fixed scenario around an interrupted big truncation instead of random operations
 	Continue  bool // run the continuation workload
 	ContinueEvery int // ... on every n-th image (0/1 = all)
 	Depth2Stride int // cut the recorded recovery run after every n-th of its writes
@@ -177,6 +178,30 @@ func runCrashWorkload(cfg CrashCfg, seed uint64, cas int, res *CrashRes) *crashW
 		return r
 	}
 	big := 0
+	if cfg.Script {
+		// a big file is truncated (to nothing in odd cases) and the crash cuts
+		// fall into the background free; nothing else touches the file, so the
+		// continuation on the recovered images finds it half-truncated
+		root := s.srv.Root
+		if r := doOne(&Op{K: OpCreate, H: root, Name: "a"}); r.Stat == stOK {
+			s.nextUid++
+			doOne(&Op{K: OpWrite, H: r.FH, Count: 9000, DataLen: 9000, Uid: s.nextUid, Stable: 2})
+		}
+		if r := doOne(&Op{K: OpCreate, H: root, Name: "big"}); r.Stat == stOK {
+			for k := 0; k < 10; k++ {
+				s.nextUid++
+				doOne(&Op{K: OpWrite, H: r.FH, Off: uint64(k) * 64 * BlockSize, Count: 64 * BlockSize, DataLen: 64 * BlockSize, Uid: s.nextUid, Stable: []int{0, 2}[k%2]})
+			}
+			sz := []uint64{0, 0, BlockSize, 100}[cas/8%4]
+			doOne(&Op{K: OpSetattr, H: r.FH, SetSize: true, Size: sz})
+		}
+		if r := doOne(&Op{K: OpCreate, H: root, Name: "b"}); r.Stat == stOK {
+			s.nextUid++
+			doOne(&Op{K: OpWrite, H: r.FH, Count: 20000, DataLen: 20000, Uid: s.nextUid, Stable: 0})
+			doOne(&Op{K: OpCommit, H: r.FH})
+		}
+		cfg.NOps = 0
+	}
 	for i := 0; i < cfg.NOps && len(sres.Viol) == 0; i++ {
 		var op *Op
 		switch {
@@ -196,21 +221,29 @@ func runCrashWorkload(cfg CrashCfg, seed uint64, cas int, res *CrashRes) *crashW
 		case cfg.BigFiles && big == 1 && i == cfg.NOps*2/3:
 			big = 2
 			o := s.m.lookupIn(s.m.Objs[s.m.Root], "big")
+			variant := []int{0, 0, 2, 3, 1, 2, 3, 1}[cas%8]
 			switch {
-			case cas%4 == 1 || o == nil || o.FH == nil:
+			case variant == 1 || o == nil || o.FH == nil:
 				op = &Op{K: OpRemove, H: s.srv.Root, Name: "big"}
-			case cas%4 == 2:
+			case variant == 2:
 				// truncate to nothing and remove right away (the free is still in progress)
 				doOne(&Op{K: OpSetattr, H: o.FH, SetSize: true, Size: 0})
 				op = &Op{K: OpRemove, H: s.srv.Root, Name: "big"}
-			case cas%4 == 3:
-				// truncate to a block boundary and append right away
+			case variant == 3:
+				// truncate to a block boundary, append right away, then grow
+				// over what lies beyond the appended bytes
 				sz := uint64(rng.Intn(3)) * BlockSize
 				doOne(&Op{K: OpSetattr, H: o.FH, SetSize: true, Size: sz})
 				s.nextUid++
-				op = &Op{K: OpWrite, H: o.FH, Off: sz, Count: 100, DataLen: 100, Uid: s.nextUid, Stable: 2}
+				doOne(&Op{K: OpWrite, H: o.FH, Off: sz, Count: 100, DataLen: 100, Uid: s.nextUid, Stable: 2})
+				doOne(&Op{K: OpSetattr, H: o.FH, SetSize: true, Size: sz + 3*BlockSize + 77})
+				op = &Op{K: OpRead, H: o.FH, Off: 0, Count: 65536}
 			default:
-				op = &Op{K: OpSetattr, H: o.FH, SetSize: true, Size: []uint64{0, BlockSize, 2 * BlockSize, uint64(rng.Intn(3 * BlockSize))}[rng.Intn(4)]}
+				sz := []uint64{0, BlockSize, 2 * BlockSize, uint64(rng.Intn(3 * BlockSize))}[rng.Intn(4)]
+				if cas%2 == 1 {
+					sz = 0 // truncated to nothing, blocks still being freed
+				}
+				op = &Op{K: OpSetattr, H: o.FH, SetSize: true, Size: sz}
 			}
 		case i%11 == 9:
 			// a stable write into a hole of a pre-sized file (the file does not grow)
@@ -439,6 +472,42 @@ func (w *crashWork) continuation(srv *Srv, match int, shrinking []uint64, add fu
 	s.m = w.snaps[match].Clone()
 	s.names = namePool
 	root := srv.Root
+	// a file whose truncation was cut short by the crash: remove it now (its
+	// free is still in progress), so that its number is reused below
+	if debugOn {
+		desc := ""
+		for _, o := range s.m.LiveObjs() {
+			if o.FH != nil && len(shrinking) > 0 && leU64(o.FH) == shrinking[0] {
+				desc = fmt.Sprintf("live obj #%d kind %d size %d", o.ID, o.Kind, o.Size)
+			}
+		}
+		fmt.Println("DEBUG continuation match", match, "shrinking", shrinking, desc, "lastop", w.ops[len(w.ops)-1].Desc)
+	}
+	for _, inum := range shrinking {
+		for _, d := range s.m.LiveObjs() {
+			if d.Kind != KDir || d.FH == nil {
+				continue
+			}
+			for n, id := range d.Ents {
+				if c := s.m.Objs[id]; c.Kind == KReg && c.FH != nil && leU64(c.FH) == inum && match%2 == 0 {
+					rr := s.exec(&Op{K: OpRemove, H: d.FH, Name: n})
+					if debugOn {
+						fmt.Println("DEBUG continuation removes", n, "inum", inum, "match", match, "->", rr.Stat)
+					}
+				}
+			}
+		}
+	}
+	// the first allocation after a restart gets the lowest free inode number:
+	// make it a regular file and look at everything it shows
+	if cf := s.exec(&Op{K: OpCreate, H: root, Name: "contfile"}); cf.Stat == stOK {
+		s.nextUid++
+		s.exec(&Op{K: OpWrite, H: cf.FH, Off: 5000, Count: 3000, DataLen: 3000, Uid: 900000 + s.nextUid, Stable: 2})
+		s.exec(&Op{K: OpSetattr, H: cf.FH, SetSize: true, Size: 40 * BlockSize})
+		s.exec(&Op{K: OpRead, H: cf.FH, Off: 0, Count: 65536})
+		s.exec(&Op{K: OpRead, H: cf.FH, Off: 65536, Count: 65536})
+		s.exec(&Op{K: OpRead, H: cf.FH, Off: 131072, Count: 65536})
+	}
 	r := s.exec(&Op{K: OpMkdir, H: root, Name: "cont"})
 	if r.Stat == stOK {
 		dfh := r.FH
@@ -681,3 +750,5 @@ func timesAgree(m *Model, got []DumpEnt) bool {
 	}
 	return true
 }
+
+var debugOn = envInt("VERIF_DEBUG", 0) != 0
